@@ -82,6 +82,7 @@ mod c_chunk;
 mod c_msg;
 mod c_server;
 mod c_client;
+mod c_hs;
 
 fn run_case(line: &str) -> String {
     let mut it = line.splitn(2, ' ');
@@ -94,6 +95,7 @@ fn run_case(line: &str) -> String {
         "msg" => c_msg::run(rest),
         "server" => c_server::run(rest),
         "client" => c_client::run(rest),
+        "hs" => c_hs::run(rest),
         _ => format!("HARNESS-UNKNOWN-COMPONENT {}", comp),
     }
 }
